@@ -127,6 +127,10 @@ var userTypeNameRegexp = regexp.MustCompile(`@[A-Za-z0-9_-]+`)
 // maxUserTypeReferenceSteps limits the work of checkUserTypeReferences.
 const maxUserTypeReferenceSteps = 1 << 20
 
+// maxUserTypeReachedSquares limits the sum, over all user types, of the square
+// of the number of types a type reaches.
+const maxUserTypeReachedSquares = 1 << 24
+
 // checkUserTypeReferences walks, from every user type, along all chains of
 // references between the types, as the recursion check of the schema library
 // does for every schema that is compiled. The number of chains can grow
@@ -179,8 +183,39 @@ func (core *JApiCore) checkUserTypeReferences() *jerr.JApiError {
 		return true
 	}
 
+	// The library gives every type the types it reaches, directly or through
+	// other types, and then looks at every pair of them: 1000 types of which
+	// each names the next one take 17 seconds. The squares of the numbers of
+	// reached types are summed up, times 16 where a name stands in an allOf rule.
+	cost, work := 0, 0
+	reached := func(k string) (n int, allOf bool) {
+		seen := map[string]struct{}{k: {}}
+		todo := []string{k}
+		for len(todo) > 0 && work <= maxUserTypeReachedSquares {
+			t := todo[len(todo)-1]
+			todo = todo[:len(todo)-1]
+			for _, r := range refs[t] {
+				work++
+				allOf = allOf || r.allOf
+				if _, ok := seen[r.name]; !ok {
+					seen[r.name] = struct{}{}
+					todo = append(todo, r.name)
+				}
+			}
+		}
+		return len(seen) - 1, allOf
+	}
+
 	err := core.userTypes.Each(func(k string, _ schema.Schema) error {
 		if !walk(k) {
+			return core.rawUserTypes.GetValue(k).KeywordError(jerr.TooManyTypeReferences)
+		}
+		n, allOf := reached(k)
+		if allOf {
+			n *= 4
+		}
+		cost += n * n
+		if cost > maxUserTypeReachedSquares || work > maxUserTypeReachedSquares {
 			return core.rawUserTypes.GetValue(k).KeywordError(jerr.TooManyTypeReferences)
 		}
 		return nil
